@@ -252,7 +252,7 @@ func (c *Ctx) instantiate(fs []*Term) []*Term {
 			collect(a)
 		}
 	}
-	var foralls []*Term
+	var foralls, foralls2 []*Term
 	var findForalls func(t *Term, pos bool)
 	findForalls = func(t *Term, pos bool) {
 		switch t.op {
@@ -266,6 +266,9 @@ func (c *Ctx) instantiate(fs []*Term) []*Term {
 			if pos && !t.hasBound && len(t.bvars) == 1 {
 				foralls = append(foralls, t)
 			}
+			if pos && !t.hasBound && len(t.bvars) == 2 {
+				foralls2 = append(foralls2, t)
+			}
 		}
 	}
 	for _, f := range fs {
@@ -274,6 +277,47 @@ func (c *Ctx) instantiate(fs []*Term) []*Term {
 	}
 	var out []*Term
 	n := 0
+	// two bound variables (forallGrid): fix the first one at the candidate rows, keep the second quantified
+	for _, q := range foralls2 {
+		b0, b1 := q.bvars[0], q.bvars[1]
+		var rows []*Term
+		rowSeen := map[int]bool{}
+		seenB := map[int]bool{}
+		var walk func(t *Term)
+		walk = func(t *Term) {
+			if seenB[t.id] || !t.hasBound {
+				return
+			}
+			seenB[t.id] = true
+			if t.op == "select" && t.args[1].hasBound {
+				arr := base(t.args[0])
+				if !arr.hasBound {
+					for _, idx := range byArr[arr.id] {
+						if idx.sort == b0.sort && !rowSeen[idx.id] {
+							rowSeen[idx.id] = true
+							rows = append(rows, idx)
+						}
+					}
+				}
+			}
+			for _, a := range t.args {
+				walk(a)
+			}
+		}
+		walk(q.args[0])
+		for i, r := range rows {
+			if i >= 12 {
+				break
+			}
+			inner := c.Subst(q.args[0], b0, r)
+			if inner.IsTrue() {
+				continue
+			}
+			f1 := c.Forall([]*Term{b1}, inner)
+			out = append(out, f1)
+			foralls = append(foralls, f1)
+		}
+	}
 	for _, q := range foralls {
 		bv := q.bvars[0]
 		// arrays the body reads at a bound index: their other indices come first
